@@ -30,8 +30,14 @@ PROPS = {
         'verus': [BUILDER_VERUS],
         'kani': [{'unit': 'builder_restore', 'mount': 'src/compiler/builder.rs', 'mod': 'verif_kani_builder_restore',
                   'harnesses': {
-                      'restore_contract_free4': {'kind': 'bounded', 'bound': 'free list <= 4 entries, saved stack <= 2', 'fn': 'RegisterAllocator::restore'},
-                      'restore_contract_free6': {'kind': 'bounded', 'bound': 'free list <= 6 entries, saved stack <= 2', 'fn': 'RegisterAllocator::restore', 'tier': 'thorough'},
+                      'restore_f0_s0': {'kind': 'bounded', 'bound': 'free list of exactly 0 entries, saved stack of exactly 0', 'fn': 'RegisterAllocator::restore'},
+                      'restore_f2_s0': {'kind': 'bounded', 'bound': 'free list of exactly 2 entries, saved stack of exactly 0', 'fn': 'RegisterAllocator::restore'},
+                      'restore_f0_s1': {'kind': 'bounded', 'bound': 'free list of exactly 0 entries, saved stack of exactly 1', 'fn': 'RegisterAllocator::restore'},
+                      'restore_f1_s1': {'kind': 'bounded', 'bound': 'free list of exactly 1 entries, saved stack of exactly 1', 'fn': 'RegisterAllocator::restore'},
+                      'restore_f2_s1': {'kind': 'bounded', 'bound': 'free list of exactly 2 entries, saved stack of exactly 1', 'fn': 'RegisterAllocator::restore'},
+                      'restore_f3_s2': {'kind': 'bounded', 'bound': 'free list of exactly 3 entries, saved stack of exactly 2', 'fn': 'RegisterAllocator::restore'},
+                      'restore_f4_s1': {'kind': 'bounded', 'bound': 'free list of exactly 4 entries, saved stack of exactly 1', 'fn': 'RegisterAllocator::restore', 'tier': 'thorough'},
+                      'restore_f6_s2': {'kind': 'bounded', 'bound': 'free list of exactly 6 entries, saved stack of exactly 2', 'fn': 'RegisterAllocator::restore', 'tier': 'thorough'},
                   }, 'replay_test': 'verif_replay_builder_restore'}],
         'oracles': [BUILDER_ORACLE],
         'obl_exclude': C10_EXCLUDE,
